@@ -7,7 +7,7 @@
   aliases), or for every single accepted operation on any state that satisfies the invariant.
 -/
 import DymVerif.Lemmas.DymNSCfg
-import DymVerif.Lemmas.DymNSLedgerAlias
+import DymVerif.Lemmas.DymNSBoIdx
 import DymVerif.Lemmas.GenEqDymNS
 namespace DymVerif.C17
 open DymVerif DymVerif.DymNS
@@ -76,6 +76,14 @@ theorem owner_unique (p : Params) (t : Nat) (ops : List Op) (a b : Acct) (n : Na
   obtain ⟨d, hd, rfl⟩ := (indexes_consistent_owned p t ops a n).mp ha
   obtain ⟨d', hd', rfl⟩ := (indexes_consistent_owned p t ops b n).mp hb
   rw [hd] at hd'; injection hd' with hd'; subst hd'; rfl
+
+/-- **indexes_consistent (buy orders)**: orders-by-buyer, orders-by-name and orders-by-alias list
+    exactly the open buy orders of that buyer / on that name / on that alias -/
+theorem indexes_consistent_buy_orders (p : Params) (t : Nat) (ops : List Op) : BoIdxOK (run (State.start p t) ops) := by
+  have h := init_inv
+  refine run_boIdxOK ops (s := State.start p t)
+    { wfN := h.wfN, wfA := h.wfA, wfB := h.wfB, esc := h.esc, idx := h.idx, ali := h.ali, so := h.so, boK := h.boK } ?_
+  refine ⟨fun a id => ?_, fun n id => ?_, fun l id => ?_⟩ <;> simp [State.start, State.init, Idx.lookup]
 
 /-! ## owner_unique_authorised — who can change a record -/
 
@@ -247,6 +255,14 @@ theorem refund_full_outbid_alias {s s' : State} {a : Acct} {l : AliasId} {offer 
           ∀ x, balOf s' x + (if x = a then offer else 0) = balOf s x + refundTo so.bid x :=
   purchaseAlias_ledger h hso
 
+/-- **sale_exact (accepted buy order on an alias)** -/
+theorem sale_exact_accept_alias {s s' : State} {a : Acct} {pfx : Bool} {id : Nat} {bo : BuyOrder}
+    (hg : AMap.get s.bos id = some bo) (hal : bo.isAlias = true) (h : acceptBO s a pfx id bo.offer = .ok s') :
+    ∃ src r, AMap.get s.al.aliasTo bo.asset = some src ∧ AMap.get s.al.rollapps src = some r ∧ r.owner = a ∧
+      AMap.get s'.al.aliasTo bo.asset = some bo.dst ∧ AMap.get s'.bos id = none ∧
+      ∀ x, balOf s' x = balOf s x + (if x = a then bo.offer else 0) :=
+  acceptAliasBO_ledger hg hal h
+
 /-! ## resolve_agree
 
   Full statement (reverse resolution is sound and complete w.r.t. forward resolution):
@@ -267,7 +283,8 @@ theorem resolve_agree_complete (p : Params) (t : Nat) (ops : List Op) (n : Name)
     (c.path, n, prettyChain (run (State.start p t) ops) c.chain) ∈ reverse (run (State.start p t) ops) c.value c.chain :=
   reverse_complete (reachable_inv p t ops).idx hl hc
 
-/-- every reachable state also keeps the (chain, path) identities of each name's records distinct -/
+/-- every reachable state also keeps the (chain, path) identities of each name's records distinct and
+    host-chain records in host format -/
 theorem reachable_cfgOK (p : Params) (t : Nat) (ops : List Op) : CfgOK (run (State.start p t) ops) := by
   have h := init_inv
   refine (run_inv_cfgOK ops (s := State.start p t)
@@ -278,34 +295,40 @@ theorem reachable_cfgOK (p : Params) (t : Nat) (ops : List Op) : CfgOK (run (Sta
 /-- **resolve_agree_partial (sound half)**: in every reachable state whose params list no alias
     under two chain-ids, every candidate `(path, n)` of a reverse resolution of `addr` on working
     chain `wc` resolves forward — through the pretty handle reverse resolution prints — to exactly
-    `addr`, *provided* that, if the fallback stage produced it (`hFb`), the working chain is a
-    RollApp with a declared bech32 prefix, `addr` carries that prefix, and the name has no explicit
-    record for that RollApp.  The two counterexamples below violate the last and the second proviso. -/
+    `addr`, *provided* that, if the fallback stage produced it (`hFb`), either the working chain is
+    the host chain and `addr` is in host format, or it is a RollApp with a declared bech32 prefix,
+    `addr` carries that prefix, and the name has no explicit record for that RollApp.  The two
+    counterexamples below violate the last and the second-to-last proviso. -/
 theorem resolve_agree_partial (p : Params) (t : Nat) (ops : List Op)
     (hPW : ParamsWF (run (State.start p t) ops).p) (addr : Addr) (wc : Chain) (path : Path) (n : Name)
     (hm : (path, n) ∈ reverseRaw (run (State.start p t) ops) addr wc)
     (hFb : (revByConfig (run (State.start p t) ops) addr wc).isEmpty = true →
-      wc ≠ 0 ∧ rollappHrp (run (State.start p t) ops) wc ≠ 0 ∧ addr.hrp = rollappHrp (run (State.start p t) ops) wc ∧
-        ∀ d, getNameLive (run (State.start p t) ops) n = some d → findConfig d wc 0 = none) :
+      (wc = 0 ∧ addr.hrp = 0) ∨
+      (wc ≠ 0 ∧ rollappHrp (run (State.start p t) ops) wc ≠ 0 ∧ addr.hrp = rollappHrp (run (State.start p t) ops) wc ∧
+        ∀ d, getNameLive (run (State.start p t) ops) n = some d → findConfig d wc 0 = none)) :
     resolve (run (State.start p t) ops) path n (prettyChain (run (State.start p t) ops) wc) = some addr := by
   have hI := reachable_inv p t ops
   have hC := reachable_cfgOK p t ops
+  have hW : ∀ d, getNameLive (run (State.start p t) ops) n = some d → CfgWF d.configs :=
+    fun d hl => hC n d (getNameLive_some hl).1
   have hU : ∀ d, getNameLive (run (State.start p t) ops) n = some d → CfgUniq d :=
-    fun d hl => cfgUniq_of_nodup (hC n d (getNameLive_some hl).1)
+    fun d hl => cfgUniq_of_nodup (hW d hl).1
   have hH := handle_roundtrip wc hPW hI.ali
   have hP : ∀ c, prettyChain (run (State.start p t) ops) wc = .chain c → c = wc := fun c h => prettyChain_chain h
   unfold reverseRaw at hm
   by_cases he : (revByConfig (run (State.start p t) ops) addr wc).isEmpty = true
-  · obtain ⟨hwc, hpre, hfmt, hNo⟩ := hFb he
-    simp only [he, Bool.not_true, Bool.false_eq_true, if_false] at hm
-    split at hm
-    · cases hm
-    · rename_i hr
-      have hR : isRollapp (run (State.start p t) ops) wc = true := by
-        cases hx : isRollapp (run (State.start p t) ops) wc with
-        | true => rfl
-        | false => exact absurd ⟨hwc, by simp [hx]⟩ hr
-      exact revByFallback_sound_partial hU hH hP hwc hR hpre hfmt hNo hm
+  · simp only [he, Bool.not_true, Bool.false_eq_true, if_false] at hm
+    rcases hFb he with ⟨rfl, hfmt⟩ | ⟨hwc, hpre, hfmt, hNo⟩
+    · simp only [ne_eq, not_true_eq_false, false_and, if_false] at hm
+      exact revByFallback_host_sound hW hH hP hfmt hm
+    · split at hm
+      · cases hm
+      · rename_i hr
+        have hR : isRollapp (run (State.start p t) ops) wc = true := by
+          cases hx : isRollapp (run (State.start p t) ops) wc with
+          | true => rfl
+          | false => exact absurd ⟨hwc, by simp [hx]⟩ hr
+        exact revByFallback_sound_partial hU hH hP hwc hR hpre hfmt hNo hm
   · have : (!(revByConfig (run (State.start p t) ops) addr wc).isEmpty) = true := by simpa using he
     simp only [this, if_true] at hm
     exact revByConfig_sound hU hH hP hm
@@ -356,6 +379,8 @@ example : getName (step exMarket (.buyName 1 1 9)) 1 = some (cleared 1 63073000)
 /-- take-over: rejected one second before the end of the grace period, accepted at its end -/
 example : getName (run exMarket [.advance (63072000 + 99), .register 2 1 1 4 0]) 1 = getName exMarket 1 ∧
     (getName (run exMarket [.advance (63072000 + 100), .register 2 1 1 4 0]) 1).map (·.owner) = some 2 := by decide
+example : exMarket.boBuyer.lookup 1 = [1] ∧ exMarket.boName.lookup 1 = [1] ∧ (AMap.get exMarket.bos 1).map (·.offer) = some 5 := by
+  decide
 example : aliasesOf cxOverride 1 = [0] ∧ AMap.get cxOverride.al.aliasTo 0 = some 1 := by decide
 example : resolve cxOverride 0 0 (.chain 0) = some ⟨0, 0⟩ ∧ reverse cxOverride ⟨0, 0⟩ 0 = [(0, 0, .chain 0)] := by decide
 
